@@ -76,6 +76,10 @@ type e2Options struct {
 	GRPC bool
 	// NoTap disables recording of the nodes' outgoing HTTP requests.
 	NoTap bool
+	// HealthGate makes every node's health object an e2HealthGate (the real
+	// health.Health behind a gate that can hold one Unregister call), see
+	// e2Node.HealthGate. Off: the real *health.Health is injected directly.
+	HealthGate bool
 }
 
 type e2Node struct {
@@ -95,9 +99,11 @@ type e2Node struct {
 	GRPCAddr  string
 	PeerURL   string // the address peers know this node by ("http://127.0.0.1:port")
 	Version   string
-	done      chan struct{}
-	doneOnce  sync.Once
-	stopped   bool
+	// HealthGate is non-nil when the cluster was started with HealthGate.
+	HealthGate *e2HealthGate
+	done       chan struct{}
+	doneOnce   sync.Once
+	stopped    bool
 }
 
 type e2Cluster struct {
@@ -353,7 +359,7 @@ func e2StartOnce(opts e2Options) (*e2Cluster, error) {
 		if opts.Configure != nil {
 			opts.Configure(i, cfg)
 		}
-		n, err := e2BuildNode(i, cfg, c.tap)
+		n, err := e2BuildNodeOpt(i, cfg, c.tap, opts.HealthGate)
 		if err != nil {
 			return fail(fmt.Errorf("node %d: %w", i, err))
 		}
@@ -389,6 +395,66 @@ func e2StartOnce(opts e2Options) (*e2Cluster, error) {
 // objects, same names, same constructors), with a MockConfig instead of the
 // file config, a null logger, and transports that dial through the tap.
 func e2BuildNode(index int, c *config.MockConfig, tap *e2Tap) (*e2Node, error) {
+	return e2BuildNodeOpt(index, c, tap, false)
+}
+
+// e2HealthGate is the node's real health.Health (every call is delegated to
+// it) with one addition: after Arm(subsystem) the next Unregister(subsystem)
+// parks until Release(). InMemCollector.Stop calls
+// Health.Unregister("collector") right after closing its done channel and
+// before it stops its workers, so parking there holds a graceful shutdown at
+// exactly that point: an admissible schedule (Unregister takes a mutex and the
+// goroutine may be descheduled there for any length of time), during which the
+// workers keep ticking and deciding.
+type e2HealthGate struct {
+	*health.Health
+	mu      sync.Mutex
+	armed   string
+	parked  chan struct{}
+	release chan struct{}
+}
+
+func (g *e2HealthGate) Arm(subsystem string) {
+	g.mu.Lock()
+	g.armed, g.parked, g.release = subsystem, make(chan struct{}), make(chan struct{})
+	g.mu.Unlock()
+}
+
+// Parked is closed when the armed Unregister call has arrived.
+func (g *e2HealthGate) Parked() <-chan struct{} {
+	g.mu.Lock()
+	defer g.mu.Unlock()
+	return g.parked
+}
+
+func (g *e2HealthGate) Release() {
+	g.mu.Lock()
+	if g.release != nil {
+		select {
+		case <-g.release:
+		default:
+			close(g.release)
+		}
+	}
+	g.mu.Unlock()
+}
+
+func (g *e2HealthGate) Unregister(subsystem string) {
+	g.mu.Lock()
+	hit := g.armed != "" && g.armed == subsystem
+	parked, release := g.parked, g.release
+	if hit {
+		g.armed = ""
+	}
+	g.mu.Unlock()
+	if hit {
+		close(parked)
+		<-release
+	}
+	g.Health.Unregister(subsystem)
+}
+
+func e2BuildNodeOpt(index int, c *config.MockConfig, tap *e2Tap, healthGate bool) (*e2Node, error) {
 	version := fmt.Sprintf("verif-e2-n%d-%x", index, time.Now().UnixNano())
 	a := &App{Version: version}
 	n := &e2Node{Index: index, Cfg: c, App: a, Version: version, done: make(chan struct{})}
@@ -430,6 +496,13 @@ func e2BuildNode(index int, c *config.MockConfig, tap *e2Tap) (*e2Node, error) {
 	var promMetrics metrics.MetricsBackend = &metrics.NullMetrics{}
 	var oTelMetrics metrics.MetricsBackend = &metrics.NullMetrics{}
 	refineryHealth := &health.Health{}
+	var healthObject any = refineryHealth
+	if healthGate {
+		// inject does not look into the embedded pointer: wire the real Health by hand
+		refineryHealth.Clock, refineryHealth.Metrics, refineryHealth.Logger = clockwork.NewRealClock(), metricsSingleton, lgr
+		n.HealthGate = &e2HealthGate{Health: refineryHealth}
+		healthObject = n.HealthGate
+	}
 	tracer := trace.Tracer(noop.Tracer{})
 
 	g := &inject.Graph{}
@@ -452,7 +525,7 @@ func e2BuildNode(index int, c *config.MockConfig, tap *e2Tap) (*e2Node, error) {
 		{Value: version, Name: "version"},
 		{Value: samplerFactory},
 		{Value: stressRelief, Name: "stressRelief"},
-		{Value: refineryHealth},
+		{Value: healthObject},
 		{Value: &configwatcher.ConfigWatcher{}},
 		{Value: a},
 		{Value: fmt.Sprintf("verifnode%d", index), Name: "instanceID"},
